@@ -31,11 +31,15 @@ struct SchedReader<'a> {
     empty_buf_call: bool,
     /// absolute stream offsets at which a read ended
     cuts: Vec<usize>,
+    /// answers are clamped to what is possible instead of treating a
+    /// mismatch as a replay divergence (used where the schedule is a fixed
+    /// list that was not derived from a previous run)
+    lenient: bool,
 }
 
 impl<'a> SchedReader<'a> {
     fn new(data: &'a [u8], sched: &'a [usize], fault_at: Option<usize>) -> SchedReader<'a> {
-        SchedReader { data, pos: 0, sched, idx: 0, log: vec![], fault_at, eof_reported: false, empty_buf_call: false, cuts: vec![] }
+        SchedReader { data, pos: 0, sched, idx: 0, log: vec![], fault_at, eof_reported: false, empty_buf_call: false, cuts: vec![], lenient: false }
     }
 }
 
@@ -55,6 +59,7 @@ impl<'a> Read for SchedReader<'a> {
         // no longer describes the run: fall back to the default answer
         let fired = self.fault_at.map_or(false, |k| self.idx > k);
         let want = if self.idx < self.sched.len() && !fired { self.sched[self.idx] } else { maxr };
+        let want = if self.lenient { want.min(maxr).max(if maxr > 0 { 1 } else { 0 }) } else { want };
         if self.idx < self.sched.len() && !fired && (want > maxr || (want == 0 && maxr > 0)) {
             // replaying a prefix must reproduce the same menu of answers
             panic!("HARNESS replay divergence: schedule asks {} but only {} possible", want, maxr);
@@ -236,6 +241,7 @@ impl<'a> Item<'a> {
         aho_corasick::verif::set_stream_buffer_capacity(if hook { Some(self.cap) } else { None });
         aho_corasick::verif::reset_counters();
         let mut rdr = SchedReader::new(stream, sched, None);
+        rdr.lenient = !hook;
         let r = catch_unwind(AssertUnwindSafe(|| {
             let mut got: Vec<Result<M, String>> = vec![];
             let mut it = self.ac.try_stream_find_iter(&mut rdr).map_err(|e| e.to_string())?;
@@ -312,6 +318,7 @@ impl<'a> Item<'a> {
             for per_call in [usize::MAX, 1, 2] {
                 // table variant
                 let mut rdr = SchedReader::new(stream, sched, None);
+                rdr.lenient = !hook;
                 let mut w = SchedWriter { out: vec![], accept: usize::MAX, per_call, failed: false, limit: 8 * stream.len() + 64 };
                 let r = catch_unwind(AssertUnwindSafe(|| self.ac.try_stream_replace_all(&mut rdr, &mut w, reptab)));
                 st.add("executions", 1);
@@ -347,6 +354,7 @@ impl<'a> Item<'a> {
             }
             // closure variant: handed exactly the matched bytes and absolute offsets
             let mut rdr = SchedReader::new(stream, sched, None);
+            rdr.lenient = !hook;
             let mut w = SchedWriter { out: vec![], accept: usize::MAX, per_call: usize::MAX, failed: false, limit: 8 * stream.len() + 64 };
             let mut seen: Vec<(M, Vec<u8>)> = vec![];
             let r = catch_unwind(AssertUnwindSafe(|| {
